@@ -99,6 +99,14 @@ ROWS = [
  (['C01'], 'escaped.ValueError@numbers.py:from_oct', F, '4d9657db', 'PRINT &O1 7 escaped as ValueError'),
  (['C23', 'C04'], 'reset.soft-math-errors-stay-hard', F, 'b8edb98c', 'after ON ERROR GOTO had been used, RUN/NEW/CLEAR did not restore soft handling: 10 PRINT 1/0:PRINT "after" stopped with Division by zero in 10'),
  (['C01', 'C33', 'C42'], 'escaped.KeyError@memory.py:get_value_for_varptrstr', F, '8b223888', 'DRAW "X"+CHR$(1)+CHR$(0)+CHR$(0) escaped as KeyError'),
+ (['C01'], 'escaped.ValueError@numbers.py:from_token', F, '26932cf2', 'RUN of a tokenised file ending inside a number constant escaped as ValueError'),
+ (['C01', 'C10', 'C23'], 'escaped.error@strings.py:collect_garbage', F, '6a0c43ef', 'CLEAR ,1,16777216 then PRINT FRE("") escaped as struct.error (sizes applied one by one, no lower bound)'),
+ (['C01'], 'escaped.error@strings.py:from_pointer', F, '6a0c43ef', 'CLEAR 0,256 then CHAIN MERGE ...,ALL escaped as struct.error (same cause)'),
+ (['C01'], 'escaped.AttributeError@implementation.py:line_input_', F, '7a9a75fa', 'OPEN "SCRN:" FOR RANDOM AS #2: LINE INPUT#2,T$ escaped as AttributeError'),
+ (['C01'], 'escaped.ValueError@program.py:edit', F, '69455d23', 'pending EDIT prompt after the line was replaced escaped as ValueError (min of empty sequence)'),
+ (['C01'], 'escaped.error@program.py:renum', F, 'ecc8fcf4', 'LOAD of the file FF 49 53 0E then RENUM escaped as struct.error'),
+ (['C01'], 'escaped.error@numbers.py:from_int', F, 'df13de14', 'PRINT TAB(-65537)1 escaped as struct.error'),
+ (['C01', 'C44'], 'escaped.ValueError@python3.py:setenvu', F, '62afcd32', 'codepage 932/874: ENVIRON "A="+CHR$(255) escaped as ValueError (undefined code point converts to U+0000)'),
  # open findings (not repaired): identified by bucket key
  (['C24'], 'input.item-after-255-byte-string', O, None, 'WRITE #1,A$,N% with LEN(A$)=255 then INPUT #1,B$,M%: B$ is intact but the item after the 255-byte string is lost (reader stops at 255 characters, GW-BASIC-compatible limit)'),
  (['C25'], 'alias.*', O, None, 'two file numbers open FOR RANDOM on the same file do not see each other\'s records: OPEN "R",1,"A.DAT",4: OPEN "R",2,"a.dat",4: PUT #1,1: GET #2,1 returns NUL bytes (each number has its own buffered stream; an unbuffered stream would break suspend/resume)'),
